@@ -21,7 +21,7 @@ ASSUMPTIONS = ["coefficient functions and the SDE drift are evaluated through th
                "copula drivers in dimension 2 (finite and infinite variation); the Libor model with independent components is refused by the library (NotImplementedError: no copula density)",
                "df is explored on [0, last tenor]"]
 REQUIRED_COUNTERS = ["single_paths", "coupled_paths", "constant_closed_form", "diagonal_closed_form", "df_meshes", "epsilon_checks",
-                     "copula_driver_cases", "libor_copula_driver_cases", "libor_coupled_paths", "rates_fixing_before_maturity", "initial_value_given_as_int_or_list"]
+                     "copula_driver_cases", "libor_copula_driver_cases", "libor_coupled_paths", "integer_tenors", "rates_fixing_before_maturity", "initial_value_given_as_int_or_list"]
 MIN_NONTRIVIAL = {"quick": 40, "thorough": 500}
 THOROUGH_ROUNDS = 3      # the thorough tier runs the generators this many times (different seeds)
 SHARD_TIMEOUT = {"quick": 900, "thorough": 7200}
@@ -61,6 +61,12 @@ def _df(case, R):
         tenors = [t0]
         for _ in range(m):
             tenors.append(tenors[-1] + float(rng.choice([0.25, 0.5, 1.0, rng.uniform(0.1, 2.0)])))
+        if case["seed"] % 3 == 0:
+            # tenors in whole years, written as integers (a list of ints, or an integer array)
+            tenors = [int(v) for v in np.cumsum(rng.integers(1, 4, size=m + 1))]
+            if rng.random() < 0.5:
+                tenors = np.array(tenors)
+            R.hit("integer_tenors")
         rates = rng.uniform(0.0, 0.12, size=m)
         if rng.random() < 0.2:
             rates[int(rng.integers(m))] = 0.0
@@ -69,6 +75,7 @@ def _df(case, R):
         cls = LevyForwardModel if kind == "forward" else LevyLiborModel
         kw = {"ois_rates": rates} if kind == "forward" else {"libor_rates": rates}
         model = cls(tenors=tenors, sigma=sigma, driver=driver, **kw)
+        tenors = [float(v) for v in tenors]
         tmax = tenors[-1]
         special = []
         for t in tenors:
